@@ -216,6 +216,9 @@ class RealCtx(BaseCtx):
     def toint(self, x):
         return int(x)
 
+    def symbolic_pi(self):
+        return math.pi
+
 
 class SymCtx(BaseCtx):
     mode = 'sym'
@@ -302,6 +305,16 @@ class SymCtx(BaseCtx):
     def toint(self, x):
         """Concretise a symbolic integer (forks over its feasible values)."""
         return int(x)
+
+    def symbolic_pi(self):
+        """numpy.pi becomes a real variable within 1e-13 of the float pi, so that every phase
+        value is an exact linear term in one symbol."""
+        v = self.E.fresh_real('pi')
+        c = fractions.Fraction(math.pi)
+        eps = fractions.Fraction(1, 10 ** 13)
+        self.E.assume((v > c - eps) & (v < c + eps))
+        self.np.PI_PROVIDER = lambda: v
+        return v
 
     def concrete(self, x):
         """Evaluate under the current path model (for observations)."""
